@@ -83,6 +83,8 @@ type Harness struct {
 	// pending QoS 2 exchanges whose hand-over was allowed early (see pubrel)
 	Mism []Mismatch
 	Now  int64 // virtual nanoseconds since the start
+	// wills of connections replaced by a reconnect under the same client name
+	oldWills []*Will
 	// StrictSubClose: a SUBSCRIBE/UNSUBSCRIBE answered by closing the connection is
 	// acceptable (C07 says so) — always true; kept for clarity
 }
@@ -182,6 +184,9 @@ func (h *Harness) Step(a Action) []Mismatch {
 		name := a.Client
 		c.OnSend = func() { h.touch(name) }
 		c.Send(ConnectPacket(a.Opts))
+		if old := m.conns[a.Client]; old != nil && old.will != nil {
+			h.oldWills = append(h.oldWills, old.will)
+		}
 		nc := &mconn{name: a.Client, cid: a.Opts.ClientID, clean: a.Opts.Clean, will: a.Opts.Will, open: true, keepAlive: a.Opts.KeepAlive, qos2in: map[uint16]*refcodec.Packet{}, lastRecv: h.Now}
 		m.conns[a.Client] = nc
 		e := exp(exps, a.Client)
@@ -477,7 +482,7 @@ func (h *Harness) compare(exps map[string]*Exp) []Mismatch {
 		c := h.byName[n]
 		got := c.Take()
 		e := exps[n]
-		mm = append(mm, Compare(n, got, e)...)
+		mm = append(mm, CompareC(n, got, e, h.classify)...)
 		if c.Bad != "" {
 			mm = append(mm, Mismatch{"stream", c.Bad})
 			c.Bad = ""
@@ -504,6 +509,21 @@ func (h *Harness) compare(exps map[string]*Exp) []Mismatch {
 		mm = append(mm, Compare("local:"+n, got, exps["local:"+n])...)
 	}
 	return mm
+}
+
+// classify attributes an unexpected PUBLISH: a will of some connection?
+func (h *Harness) classify(p *refcodec.Packet) string {
+	for _, c := range h.M.conns {
+		if c.will != nil && c.will.Topic == string(p.Topic) && c.will.Payload == string(p.Payload) {
+			return "will"
+		}
+	}
+	for _, w := range h.oldWills {
+		if w.Topic == string(p.Topic) && w.Payload == string(p.Payload) {
+			return "will"
+		}
+	}
+	return ""
 }
 
 // Idle checks that nothing arrives without an action.
